@@ -12,7 +12,9 @@ REAL, STUBS = _hist.REAL, _hist.STUBS
 RULE = ("per-run seed -> schema with a random subset of stored/sortable field types and explicit column types (var/fixed/ref "
         "bytes, numeric i/q/d, bit, compressed, compressed-block, pickle, list, struct) + value zoo (non-BMP text, bytes, ints "
         "at range limits, floats incl. -0.0, Decimals, datetimes, booleans, nested picklables, _stored_ overrides) + a history "
-        "with sparse documents, merges, compound packing, mmap on/off, restarts and a final copy_to_ram; after every commit "
+        "with sparse documents, merges, compound packing, mmap on/off, restarts and a final copy_to_ram; knobs for the constants "
+        "the library never parameterises (CompoundWriter buffer 64 B..32 KB, VarBytesColumn offsets cutoff 2..32768); half of the runs with a "
+        "reference column cross 256 distinct values in one transaction; after every commit "
         "stored fields and column values of every live document are compared with what was supplied (or the column default). "
         "Non-trivial = >=1 commit and >=1 read-back; distinct = distinct event-log SHA-256.")
 ASSUMPTIONS = ["column default = field.from_column_value(column_type.default_value()) (pure conversion functions are trusted)",
